@@ -295,6 +295,7 @@ fn run_shard(ctx: &ShardCtx, acc: &mut Acc) {
             &CfOpts {
                 back_edges: back,
                 faults: true,
+                trunc_tail: true,
                 max_blocks: 7,
             },
         );
